@@ -15,23 +15,29 @@ EXTENDS Integers, Sequences, FiniteSets, TLC, Json
 
 CONSTANTS MaxFiles, RowChoices, Shapes, Ways, PathKinds
 
-VARIABLES coll, way, pathkind, verify, badschema, pc
-vars == <<coll, way, pathkind, verify, badschema, pc>>
+VARIABLES coll, way, pathkind, verify, badschema, pc,
+          rootgiven   \* the caller names the dataset root (list / merge only): directory levels above the files are then
+                      \* partition levels even when every file shares them; otherwise the root is inferred from the paths
+vars == <<coll, way, pathkind, verify, badschema, pc, rootgiven>>
 
 Colls == UNION {[1..k -> [rows : RowChoices, key : 1..2]] : k \in 1..MaxFiles}
 Init == /\ coll \in Colls /\ way \in Ways /\ pathkind \in PathKinds /\ verify \in BOOLEAN
         /\ badschema \in 0..MaxFiles                 \* 0: all files agree; i: file i has different columns
         /\ badschema <= MaxFiles /\ pc = "open"
+        /\ rootgiven \in BOOLEAN /\ (rootgiven => way \in {"list", "merge"} /\ pathkind = "abs")
+           \* (a relative root next to relative paths is refused by the library with an error: paths are made
+           \*  absolute before they are compared with the root as given)
 RECURSIVE Sum(_)
 Sum(s) == IF s = <<>> THEN 0 ELSE Head(s) + Sum(Tail(s))
 ExpectRows == Sum([i \in DOMAIN coll |-> coll[i].rows])
 MustReject == verify /\ badschema \in DOMAIN coll /\ Len(coll) > 1
-Open == pc = "open" /\ pc' = "done" /\ UNCHANGED <<coll, way, pathkind, verify, badschema>>
+Open == pc = "open" /\ pc' = "done" /\ UNCHANGED <<coll, way, pathkind, verify, badschema, rootgiven>>
 Next == Open
 Spec == Init /\ [][Next]_vars
 Sensible == badschema <= Len(coll) /\ (badschema # 0 => Len(coll) > 1)
 Export == pc = "done" /\ Sensible => PrintT(ToJson([files |-> coll, way |-> way, pathkind |-> pathkind, verify |-> verify,
-                                                     badschema |-> badschema, rows |-> ExpectRows, reject |-> MustReject]))
+                                                     badschema |-> badschema, rows |-> ExpectRows, reject |-> MustReject,
+                                                     rootgiven |-> rootgiven]))
 RowsAll == {0, 1, 2}
 (* hive2 / drill2: two directory levels, the second key being 3 - key (two files with different keys differ at BOTH levels) *)
 ShapesAll == {"flat", "hive", "drill", "hive2", "drill2"}
